@@ -15,7 +15,7 @@
     "every call returns".  gen/ObPanics.v accounts for every explicit panic/assert site of
     the sources. *)
 From Coq Require Import List NArith ZArith QArith Bool.
-From JS Require Import Str Lit Json Res GoValue Hash Schema CodecBase Codec UnmarshalTotal Env Ann Validate Spec Refine Corollaries Defaults Uri Resolve ResolveTotal GoType Infer InferTotal NoPanic ResolveEnvOK.
+From JS Require Import Str Lit Json Res GoValue Hash Schema CodecBase Codec UnmarshalTotal Env Ann Validate Spec Refine Corollaries Defaults Uri Resolve ResolveTotal GoType Infer InferTotal NoPanic ResolveEnvOK Terminates.
 Import ListNotations.
 
 Theorem C10_validate_returns : forall re_match hash n e inst b,
@@ -54,6 +54,48 @@ Theorem C10_evaluator_no_panic : forall re_match hash e, EnvOK e ->
   forall fuel stack inst l s, Node e l s -> Forall (isNode e) stack -> validate re_match hash fuel e stack inst l s <> Panic.
 Proof. exact validate_no_panic. Qed.
 Print Assumptions C10_evaluator_no_panic.
+
+(** ... and it does not recurse without bound, "provided schema recursion passes through an
+    instance-descending keyword": when the in-place calls of the resolved schema - the targets of
+    $ref and $dynamicRef (every anchor a dynamic reference can reach) and the subschemas under allOf,
+    anyOf, oneOf, not, if / then / else, dependentSchemas / dependencies - strictly decrease a rank
+    ([RankOK]; [rank_okb] decides it for a concrete Resolved), a budget of
+    (size of the instance) * (R + 1) + R + 1 suffices for every instance: Validate returns a
+    verdict or an error, never a panic, never an exhausted budget. *)
+Theorem C10_validate_terminates : forall re_match hash e, EnvOK e -> forall rk R, RankOK e rk R ->
+  forall fuel inst, (gsize inst * (R + 1) + R < fuel)%nat -> Validate re_match hash fuel e inst <> OutOfFuel.
+Proof. exact Validate_terminates. Qed.
+Print Assumptions C10_validate_terminates.
+
+Theorem C10_validate_value_or_error : forall re_ok re_match hash fuel root baseURI loader e calls rk R vfuel inst,
+  wfs root -> (forall u s, call_loader loader u = Some s -> wfs s) ->
+  Resolve re_ok fuel root baseURI loader = Ok (e, calls) ->
+  RankOK e rk R -> (gsize inst * (R + 1) + R < vfuel)%nat ->
+  Validate re_match hash vfuel e inst = Ok tt \/ Validate re_match hash vfuel e inst = Err.
+Proof.
+  intros re_ok re_match hash fuel root baseURI loader e calls rk R vfuel inst Hw Hl H Hrk Hf.
+  destruct (Resolve_EnvOK re_ok fuel root baseURI loader e calls Hw Hl H) as [Hok Hroot].
+  pose proof (Validate_no_panic re_match hash e Hok vfuel inst Hroot) as Hp.
+  pose proof (Validate_terminates re_match hash e Hok rk R Hrk vfuel inst Hf) as Ht.
+  destruct (Validate re_match hash vfuel e inst) as [[]| | |]; auto; contradiction.
+Qed.
+Print Assumptions C10_validate_value_or_error.
+
+Theorem C10_rank_check_sound : forall e rk R, rank_okb e rk R = true -> RankOK e rk R.
+Proof. exact rank_okb_sound. Qed.
+Print Assumptions C10_rank_check_sound.
+
+(** non-vacuity: the recursive schema {"properties": {"next": {"$ref": "#"}}, "required": ["v"]} -
+    recursion through "properties", an instance-descending keyword - has a rank (the root 0, the
+    reference holder 1), and so terminates on every instance with a budget of 2 * size + 2 *)
+Example C10_rank_example :
+  let next := JS.sch.Schema.set_ref (lit "#"%lit) empty_schema in
+  let root := set_required (Some [lit "v"%lit]) (set_properties (Some [(lit "next"%lit, next)]) empty_schema) in
+  match Resolve (fun _ => true) 2 root [] None with
+  | Ok (e, _) => rank_okb e (fun l => match snd l with [] => 0%nat | _ => 1%nat end) 1 = true
+  | _ => False
+  end.
+Proof. vm_compute. reflexivity. Qed.
 
 (** Unmarshal: on every document the codec returns a schema or an error - the model has no
     Panic result here and the recursion budget (the document's size) always suffices *)
